@@ -8,11 +8,10 @@ CONSTANTS
   MaxSaves = 0
   Faults = {}
   MaxFaults = 0
-  D_RenameAfterFailedStep = TRUE
-  D_NoFsync = TRUE
+  D_RenameAfterFailedStep = FALSE
+  D_NoFsync = FALSE
   MidSaveCommits = FALSE
   CrashAction = FALSE
-  Unconditional = FALSE
   DoExport = FALSE
   MaxIno = 12
 INVARIANTS ExportStep ExportEnd
